@@ -104,7 +104,8 @@ extern int gh_case;           /* proof-split selector set by harnesses; 0 = no r
 
 size_t write_contract(scpi_t *context, const char *data, size_t len)
 __CPROVER_requires(len > 0 && data != NULL && __CPROVER_r_ok(data, len))
-__CPROVER_requires(gh_out_len <= 1000000000ul && len <= 1000000000ul && gh_out_calls <= 1000000000ul)
+/* ghost counters cannot overflow: budget levels, see OUT_LEVEL */
+__CPROVER_requires(gh_out_len <= (1ul << 62) && len <= (1ul << 32) && gh_out_calls <= (1ul << 62))
 __CPROVER_assigns(gh_out_len, gh_out_calls, gh_watch_val, gh_out_last, gh_out_first, gh_last_data, gh_last_len)
 __CPROVER_ensures(RET == len)
 __CPROVER_ensures(gh_out_len == OLD(gh_out_len) + len && gh_out_calls == OLD(gh_out_calls) + 1)
@@ -149,6 +150,9 @@ __CPROVER_ensures(gh_reset_n == OLD(gh_reset_n) + 1)
      && ((c)->interface->control == NULL || __CPROVER_obeys_contract((c)->interface->control, control_contract)) \
      && ((c)->interface->reset == NULL || __CPROVER_obeys_contract((c)->interface->reset, reset_contract)))
 
+/* output budget: a function of level L may be called while the ghost byte/call counters are below
+ * 2^(62-L); it emits far less than 2^(61-L), so its callees' level-(L-1) preconditions hold. */
+#define OUT_LEVEL(L) (gh_out_len <= (1ul << (62 - (L))) && gh_out_calls <= (1ul << (62 - (L))))
 #define GHOST_OUT gh_out_len, gh_out_calls, gh_watch_val, gh_out_last, gh_out_first, gh_last_data, gh_last_len
 #define GHOST_ERRCB gh_err_n, gh_err_last
 #define GHOST_SRQ gh_srq_n, gh_srq_val
